@@ -36,6 +36,15 @@ def gen_cases(tier, seed):
         org = r.choice([0x200, 0x1000, 0x4000, 0x7F00, 0xC000, None])      # None: no ORG line, the first statement is real code
         p = progs.gen_program(r, r.choice([6, 12, 25, 50]), origin=org)
         yield {"id": "base/%d" % k, "k": k, "prog": p}
+    # structured bases whose sizing sits on a boundary: a PCR reference back to a label on the very first statement (no ORG line), or
+    # forward to the last one, at distances around the 8-bit limit - a suffix / rename / reformat must not flip the offset width
+    def st(label, mn, op, kind, refs=(), abs_=False):
+        return {"label": label, "mn": mn, "op": op, "kind": kind, "refs": list(refs), "abs": abs_, "comment": ""}
+    for n in (range(96, 132) if thorough else range(108, 130, 2)):
+        for org in (None, 0x3000):
+            stmts = [st("BUF", "RMB", str(n), "rmb"), st("", "LEAX", "{BUF},PCR", "pcr", ["BUF"]), st("", "LDA", "[{BUF},PCR]", "pcr", ["BUF"]),
+                     st("MID", "STA", "{BUF}", "memlbl", ["BUF"], True), st("", "LEAY", "{TAIL},PCR", "pcr", ["TAIL"]), st("", "RMB", str(n - 4), "rmb"), st("TAIL", "RTS", "", "inh")]
+            yield {"id": "edge/%d/%s" % (n, org), "k": n, "prog": {"origin": org, "stmts": stmts, "equs": [], "name": None, "end": None, "org_label": ""}}
 
 
 def obs(lines):
